@@ -162,6 +162,38 @@ fn pt(t: &mut Tape, last: &mut (i64, i64), origin: (i64, i64)) -> String {
 }
 
 fn pathtok(t: &mut Tape, origin: (i64, i64)) -> String {
+    if t.chance(5) {
+        // a three-point perfect curve (as the first or as a later segment) whose exact cross product is tiny while
+        // the coordinates are large: the collinear -> linear conversion is decided by an f32 cross product
+        let mut tri = crate::gen::doc::small_cross_triple(t);
+        if t.chance(60) {
+            // both later points far from the first one and the cross product 1..3: the two f32 products exceed 2^24
+            fn egcd(a: i64, b: i64) -> (i64, i64, i64) {
+                if b == 0 {
+                    (a, 1, 0)
+                } else {
+                    let (g, x, y) = egcd(b, a % b);
+                    (g, y, x - (a / b) * y)
+                }
+            }
+            let (p, q) = (t.int(4097, 40000), t.int(4097, 40000));
+            let (g, x, y) = egcd(p, q);
+            let (p, q) = (p / g, q / g);
+            let n = t.int(0, 1);
+            let sgn = if t.chance(50) { 1 } else { -1 };
+            let sm = sgn * t.int(1, 3);
+            let a = tri[0];
+            let b = (a.0 + p, a.1 + q);
+            tri = [a, b, (b.0 + n * p - sm * y, b.1 + n * q + sm * x)];
+        }
+        let (dx, dy) = (origin.0 - tri[0].0, origin.1 - tri[0].1);
+        let p = |i: usize| format!("{}:{}", (tri[i].0 + dx).clamp(-131072, 131072), (tri[i].1 + dy).clamp(-131072, 131072));
+        return match t.below(3) {
+            0 => format!("P|{}|{}", p(1), p(2)),
+            1 => format!("L|{}|P|{}|{}", p(0), p(1), p(2)),
+            _ => format!("P|{}|{}|L|{}", p(1), p(2), p(0)),
+        };
+    }
     let mut toks: Vec<String> = vec![];
     let mut last = origin;
     let nseg = 1 + t.below(3);
@@ -271,8 +303,8 @@ fn genline(t: &mut Tape, clock: &mut i64) -> String {
         f.truncate(t.below(n + 1));
     }
     let mut l = f.join(",");
-    if t.chance(3) {
-        l.push_str(" // c");
+    if t.chance(4) {
+        l.push_str(*t.pick(&[" // c", " //,1,2", " // a|b:c,d", "//,0:0:0:0:", " // 1,2,3,4,5,6,7,8,9,10,11"]));
     }
     l
 }
